@@ -503,9 +503,25 @@ def lcommit (l : Linker) : Prog (Res Integrity) := do
       let linked : Prog (Res Unit) := do
         match ← call (.symlink l.target cpath) with
         | .err e =>
-          match ← call (.existsF cpath) with
-          | .bool true => pure (.ok ())
-          | _ => pure (.error (.io e))
+          match ← call (.isLink cpath) with
+          | .bool true =>
+            -- an earlier link lives at the address; its target may have changed or gone, whereas
+            -- `l.target` has just been read and hashed: point the address at it (temp link + rename)
+            let tmpDir := l.cache ++ [dTmp]
+            match ← call (.mkdirP tmpDir) with
+            | .err e' => pure (.error (.io e'))
+            | _ =>
+              match ← call (.mkTempLink tmpDir l.target) with
+              | .path tp =>
+                match ← call (.renameLink tp cpath) with
+                | .err e' => do dropTmp tp; pure (.error (.io e'))
+                | _ => pure (.ok ())
+              | .err e' => pure (.error (.io e'))
+              | _ => pure (.error .panic)
+          | _ =>
+            match ← call (.existsF cpath) with
+            | .bool true => pure (.ok ())
+            | _ => pure (.error (.io e))
         | _ => pure (.ok ())
       match ← linked with
       | .error e => pure (.error e)
